@@ -129,7 +129,7 @@ def exact_collection(rng, g, n, c, ntips, rooted=False):
 
 def gen(rng, tier):
     g = Gen(rng)
-    nbase = {"quick": 100, "thorough": 1500, "search": 120}[tier]
+    nbase = {"quick": 100, "thorough": 500, "search": 60}[tier]
     out = []
     for _ in range(nbase):
         n = rng.randint(1, 8)
